@@ -215,9 +215,9 @@ def swap_features(inst, proto, log):
     inst.__class__ = type("Rec" + cls.__name__, (cls,), {"get_feature": get_feature})
 
 
-async def offline(sd, interfaces=None):
+async def offline(sd, interfaces=None, ok=True):
     async def _connect():
-        return True
+        return ok
     return sd._replace(connect=_connect, close=lambda: set(), device_info=lambda: {},
                        interfaces=interfaces if interfaces is not None else sd.interfaces)
 
@@ -236,27 +236,36 @@ PYATV_ORDER = ["AirPlay", "Companion", "DMAP", "MRP", "RAOP"]      # order of py
 
 
 def profile_orders(units, rng, full):
-    """Lists of unit ids to add to the device object.  full: every non-empty set of configured services
-    (31), each adding everything its setup() yielded - in the order pyatv.connect adds them or shuffled -
-    plus arbitrary sub-lists of the yielded SetupData (with a duplicate).  Otherwise a small sample."""
+    """Lists of [unit id, what its connect() returns] to add to the device object.  full: every non-empty set of
+    configured services (31), each adding everything its setup() yielded - in the order pyatv.connect adds them or
+    shuffled -, the same with the SetupData a setup() yields for ANOTHER protocol (MRP tunnel, embedded RAOP) not
+    connecting, with one random SetupData not connecting, plus arbitrary sub-lists of the yielded SetupData with
+    duplicates and random connect results.  Otherwise a small sample."""
     by_src = {p: [u["id"] for u in units if u["src"] == p] for p in PROTOS}
+    foreign = {u["id"] for u in units if u["src"] != u["proto"]}
     orders = []
     for n, S in enumerate(c01.subsets()):
         srcs = [p for p in PYATV_ORDER if p in S]
         if n % 2:
             rng.shuffle(srcs)
         ids = [i for p in srcs for i in by_src[p]]
-        if ids:
-            orders.append(ids)
+        if not ids:
+            continue
+        orders.append([(i, True) for i in ids])
+        if any(i in foreign for i in ids) and (full == "all" or n % 2 == 0):
+            orders.append([(i, i not in foreign) for i in ids])
+        if n % (3 if full == "all" else 6) == 0:
+            k = rng.choice(ids)
+            orders.append([(i, i != k) for i in ids])
     allids = [u["id"] for u in units]
     for _ in range(12):
         ids = rng.sample(allids, rng.randint(1, len(allids)))
         if rng.random() < 0.3:
             ids.append(rng.choice(ids))
-        orders.append(ids)
+        orders.append([(i, rng.random() > 0.2) for i in ids])
     if not full:
-        orders = rng.sample(orders, 5)
-    return [list(x) for x in dict.fromkeys(map(tuple, orders))]
+        orders = rng.sample(orders, 6)
+    return [[list(x) for x in o] for o in dict.fromkeys(tuple(o) for o in orders)]
 
 
 STREAM = ["Audio", "Metadata", "PushUpdater", "RemoteControl"]     # what RAOP takes over during stream_file
@@ -320,121 +329,196 @@ def holder_scenarios(rng, thorough, discovered, protos, mode="real"):
     return sc
 
 
+async def prepare_units(mode, pidx, log):
+    """The real objects of one profile, classes swapped for recorders.  Returns (units, cleanup, off) where
+    off(id, ok) is the unit's SetupData made offline with a connect() that returns `ok`."""
+    from pyatv import interface
+    from pyatv.const import FeatureName, FeatureState
+    prof = PROFILES[pidx]
+    units, cleanup = await profile_units(prof)
+    ifs_of = {}
+    for u in units:
+        sd, p = u["sd"], u["proto"]
+        ifs = dict(sd.interfaces)
+        for k, inst in list(ifs.items()):
+            if k is interface.Features:
+                if mode == "real":
+                    swap_features(inst, p, log)
+                else:
+                    ifs[k] = c01.make_features({f.name: FeatureState.Available for f in FeatureName}, log, p)
+            else:
+                swap_class(inst, k, p, k.__name__, log)
+        ifs_of[u["id"]] = ifs
+    cache = {}
+
+    async def off(i, ok=True):
+        if (i, ok) not in cache:
+            cache[(i, ok)] = await offline([u for u in units if u["id"] == i][0]["sd"], ifs_of[i], ok)
+        return cache[(i, ok)]
+    return units, cleanup, off
+
+
+def norm_order(order):
+    """[id | [id, ok]] -> [[id, ok]]"""
+    return [[x, True] if isinstance(x, int) else [x[0], bool(x[1])] for x in order]
+
+
+async def survey(t, atv, log, meta, sc, only_features=None, only_kwargs=None, variants=True, light=False):
+    """Under takeover scenario `sc`: every reporting entry point of the features interface for every feature name,
+    then every member of every reported feature is INVOKED through the device object.  Returns the records."""
+    from pyatv.const import FeatureName, FeatureState
+    out = []
+    toks, refused = [], []
+    if sc:
+        try:
+            toks.append(atv.takeover(P(sc[0]), *[iface_cls(i) for i in sc[1]]))
+        except Exception as ex:  # noqa  an observation, not a harness failure: take what is granted
+            refused.append("%s:%s" % ("+".join(sc[1]), type(ex).__name__))
+            for i in sc[1]:
+                try:
+                    toks.append(atv.takeover(P(sc[0]), iface_cls(i)))
+                except Exception as ex2:  # noqa
+                    refused.append("%s:%s" % (i, type(ex2).__name__))
+    try:
+        gate = atv.features.in_state(FeatureState.Available, FeatureName.PlayUrl)
+    except Exception:  # noqa
+        gate = False
+    eps = {}
+    for label, call in (("all_features()", lambda: atv.features.all_features()),
+                        ("all_features(include_unsupported=True)", lambda: atv.features.all_features(include_unsupported=True))):
+        try:
+            eps[label] = {k.name: v.state.name for k, v in call().items()}
+        except Exception as ex:  # noqa  an observation
+            eps[label] = "raised " + type(ex).__name__
+    for f in t["features"]:
+        if only_features and f["name"] not in only_features:
+            continue
+        fn = getattr(FeatureName, f["name"])
+        del log[:]
+        try:
+            g = atv.features.get_feature(fn).state.name
+        except Exception as ex:  # noqa
+            g = "raised " + type(ex).__name__
+        asked = [e[0] for e in log if e[1] == "Features"]
+        other = {}
+        a0, a1 = eps["all_features()"], eps["all_features(include_unsupported=True)"]
+        other["all_features()"] = a0 if isinstance(a0, str) else a0.get(f["name"], "Unsupported")
+        other["all_features(include_unsupported=True)"] = a1 if isinstance(a1, str) else a1.get(f["name"], "MISSING")
+        for st in ([] if light else FeatureState):
+            try:
+                if atv.features.in_state(st, fn) != (st.name == g):
+                    other["in_state(%s)" % st.name] = st.name if st.name != g else "not " + g
+                if atv.features.in_state([st], fn) != (st.name == g):
+                    other["in_state([%s])" % st.name] = st.name if st.name != g else "not " + g
+            except Exception as ex:  # noqa
+                other["in_state(%s)" % st.name] = "raised " + type(ex).__name__
+        disagree = {k: v for k, v in other.items() if v != g}
+        # the feature counts as reported if ANY entry point reports it in a state other than Unsupported
+        via, eff_state = "get_feature", g
+        if g == "Unsupported" or g.startswith("raised"):
+            eff_state = "Unsupported"
+            for k, v in disagree.items():
+                if v in [x.name for x in FeatureState] and v != "Unsupported":
+                    via, eff_state = k, v
+                    break
+        rec = dict(meta, holder=[sc[0], list(sc[1])] if sc else None, takeover_refused=refused,
+                   feature=f["name"], index=f["index"], state=eff_state, get_feature=g, reported_via=via,
+                   entry_points_disagree=disagree, asked=asked, gate=gate, calls=[])
+        out.append(rec)
+        if eff_state == "Unsupported":
+            continue
+        for (i, m) in dict.fromkeys(map(tuple, f["members"])):
+            base = iface_cls(i)
+            kind = dict(public_members(base))[m]
+            kws = [{}] if (kind == "prop" or not variants) else c01.arg_variants(getattr(base, m))
+            if only_kwargs is not None:
+                kws = [only_kwargs] if kind != "prop" else [{}]
+            for kw in kws:
+                del log[:]
+                exc = await c01.invoke(getattr(atv, IACC[i]), m, kind, base, kw)
+                called = [e[0] for e in log if e[1] != "Features"]
+                relay_ok = None
+                if exc == "NotSupportedError" and not called:
+                    # does the relayer find an implementation when asked directly?
+                    try:
+                        atv._interfaces[base].relay(m)
+                        relay_ok = True
+                    except Exception as ex:  # noqa
+                        relay_ok = type(ex).__name__
+                rec["calls"].append({"iface": i, "member": m, "arguments": c01.show_kwargs(kw),
+                                     "holder": rec["holder"], "take": c01.holder_of(atv, i),
+                                     "called": called, "exc": exc, "relay": relay_ok})
+    for x in toks:
+        x()
+    return out
+
+
 async def drive_real(t, mode, pidx, orders, only_features=None, scenarios=(None,), only_kwargs=None):
     """One device profile.  mode 'real': the real Features objects answer; mode 'worst': Features stubs that
     report every feature as Available (the over-approximation of the model made concrete).  For every order
-    (list of unit ids) a device object is assembled from the real objects, every feature is asked and every
-    member of a reported feature is called."""
-    from pyatv import interface
-    from pyatv.const import FeatureName, FeatureState
+    (list of unit ids, or [id, what connect() returns]) a device object is assembled from the real objects by the
+    real FacadeAppleTV.connect, every feature is asked and every member of a reported feature is called."""
     c01.quiet()
     c01.string_kinds()          # the local files used as argument values exist
     log = []
     prof = PROFILES[pidx]
-    units, cleanup = await profile_units(prof)
+    units, cleanup, off = await prepare_units(mode, pidx, log)
     out = []
     try:
-        off = {}
-        for u in units:
-            sd, p = u["sd"], u["proto"]
-            ifs = dict(sd.interfaces)
-            for k, inst in list(ifs.items()):
-                if k is interface.Features:
-                    if mode == "real":
-                        swap_features(inst, p, log)
-                    else:
-                        ifs[k] = c01.make_features({f.name: FeatureState.Available for f in FeatureName}, log, p)
-                else:
-                    swap_class(inst, k, p, k.__name__, log)
-            off[u["id"]] = await offline(sd, ifs)
         label_ = {u["id"]: "%s>%s" % (u["src"], u["proto"]) for u in units}
+        proto_ = {u["id"]: u["proto"] for u in units}
         for order in orders:
-            atv = await c01.build_facade([off[i] for i in order])
-            protos = list(dict.fromkeys(u["proto"] for i in order for u in units if u["id"] == i))
-            scs = scenarios(protos) if callable(scenarios) else scenarios
+            order = norm_order(order)
+            atv = await c01.build_facade([await off(i, ok) for i, ok in order])
+            connected = list(dict.fromkeys(proto_[i] for i, ok in order if ok))
+            meta = {"profile": prof[0], "pidx": pidx, "order": order,
+                    "added": [label_[i] + ("" if ok else " (connect() returned False)") for i, ok in order],
+                    "connected": connected}
+            scs = scenarios(connected) if callable(scenarios) else scenarios
+            failing = any(not ok for _, ok in order)
+            if failing and callable(scenarios):
+                scs = [None]          # connect outcomes are a dimension of their own: no takeover on top
             for sc in scs:
-                toks, refused = [], []
-                if sc:
-                    try:
-                        toks.append(atv.takeover(P(sc[0]), *[iface_cls(i) for i in sc[1]]))
-                    except Exception as ex:  # noqa  an observation, not a harness failure: take what is granted
-                        refused.append("%s:%s" % ("+".join(sc[1]), type(ex).__name__))
-                        for i in sc[1]:
-                            try:
-                                toks.append(atv.takeover(P(sc[0]), iface_cls(i)))
-                            except Exception as ex2:  # noqa
-                                refused.append("%s:%s" % (i, type(ex2).__name__))
-                tok = (lambda _t=toks: [x() for x in _t]) if toks else None
-                gate = atv.features.in_state(FeatureState.Available, FeatureName.PlayUrl)
-                # every reporting entry point of interface.Features
-                eps = {}
-                for label, call in (("all_features()", lambda: atv.features.all_features()),
-                                    ("all_features(include_unsupported=True)", lambda: atv.features.all_features(include_unsupported=True))):
-                    try:
-                        eps[label] = {k.name: v.state.name for k, v in call().items()}
-                    except Exception as ex:  # noqa  an observation
-                        eps[label] = "raised " + type(ex).__name__
-                for f in t["features"]:
-                    if only_features and f["name"] not in only_features:
-                        continue
-                    fn = getattr(FeatureName, f["name"])
-                    del log[:]
-                    info = atv.features.get_feature(fn)
-                    asked = [e[0] for e in log if e[1] == "Features"]
-                    g = info.state.name
-                    other = {}
-                    a0, a1 = eps["all_features()"], eps["all_features(include_unsupported=True)"]
-                    other["all_features()"] = a0 if isinstance(a0, str) else a0.get(f["name"], "Unsupported")
-                    other["all_features(include_unsupported=True)"] = a1 if isinstance(a1, str) else a1.get(f["name"], "MISSING")
-                    for st in FeatureState:
-                        try:
-                            if atv.features.in_state(st, fn) != (st.name == g):
-                                other["in_state(%s)" % st.name] = st.name if st.name != g else "not " + g
-                            if atv.features.in_state([st], fn) != (st.name == g):
-                                other["in_state([%s])" % st.name] = st.name if st.name != g else "not " + g
-                        except Exception as ex:  # noqa
-                            other["in_state(%s)" % st.name] = "raised " + type(ex).__name__
-                    disagree = {k: v for k, v in other.items() if v != g}
-                    # the feature counts as reported if ANY entry point reports it in a state other than Unsupported
-                    via, eff_state = "get_feature", g
-                    if g == "Unsupported":
-                        for k, v in disagree.items():
-                            if v in [x.name for x in FeatureState] and v != "Unsupported":
-                                via, eff_state = k, v
-                                break
-                    rec = {"profile": prof[0], "pidx": pidx, "order": order, "added": [label_[i] for i in order],
-                           "holder": [sc[0], list(sc[1])] if sc else None, "takeover_refused": refused,
-                           "feature": f["name"], "index": f["index"], "state": eff_state, "get_feature": g, "reported_via": via,
-                           "entry_points_disagree": disagree,
-                           "asked": asked, "gate": gate, "calls": []}
-                    out.append(rec)
-                    if eff_state == "Unsupported":
-                        continue
-                    # every member the reported feature stands for is INVOKED through the device object, with
-                    # every variation of its enum/bool/number arguments; it must reach an implementation
-                    for (i, m) in dict.fromkeys(map(tuple, f["members"])):
-                        base = iface_cls(i)
-                        kind = dict(public_members(base))[m]
-                        kws = [{}] if kind == "prop" else c01.arg_variants(getattr(base, m))
-                        if only_kwargs is not None:
-                            kws = [only_kwargs] if kind != "prop" else [{}]
-                        for kw in kws:
-                            del log[:]
-                            exc = await c01.invoke(getattr(atv, IACC[i]), m, kind, base, kw)
-                            called = [e[0] for e in log if e[1] != "Features"]
-                            relay_ok = None
-                            if exc == "NotSupportedError" and not called:
-                                # does the relayer find an implementation when asked directly?
-                                try:
-                                    atv._interfaces[base].relay(m)
-                                    relay_ok = True
-                                except Exception as ex:  # noqa
-                                    relay_ok = type(ex).__name__
-                            rec["calls"].append({"iface": i, "member": m, "arguments": c01.show_kwargs(kw),
-                                                 "holder": rec["holder"], "take": c01.holder_of(atv, i),
-                                                 "called": called, "exc": exc, "relay": relay_ok})
-                if tok:
-                    tok()
+                out += await survey(t, atv, log, meta, sc, only_features, only_kwargs, variants=not failing or only_kwargs is not None,
+                                    light=failing)
+    finally:
+        await cleanup()
+    return out
+
+
+def usage_histories(rng, thorough):
+    """Histories of public member calls (interface, member) after which the device object is surveyed again:
+    every member once as a history of length 1, plus random histories of length 2-3."""
+    mem = [(i, m) for i in RELAYED for m, _ in public_members(iface_cls(i))]
+    hs = [[x] for x in mem]
+    for _ in range(40 if not thorough else 400):
+        hs.append([rng.choice(mem) for _ in range(rng.choice([2, 3]))])
+    return hs
+
+
+async def drive_usage(t, pidx, order, histories):
+    """Multi-step use of ONE device object: after every member call of the history (placeholder arguments) every
+    feature is queried again and every member of every reported feature is invoked again."""
+    c01.quiet()
+    c01.string_kinds()
+    log = []
+    prof = PROFILES[pidx]
+    units, cleanup, off = await prepare_units("real", pidx, log)
+    out = []
+    try:
+        label_ = {u["id"]: "%s>%s" % (u["src"], u["proto"]) for u in units}
+        order = norm_order(order)
+        for h in histories:
+            atv = await c01.build_facade([await off(i, ok) for i, ok in order])
+            done = []
+            for (i, m) in h:
+                base = iface_cls(i)
+                exc = await c01.invoke(getattr(atv, IACC[i]), m, dict(public_members(base))[m], base)
+                done.append(["%s.%s" % (i, m), exc])
+                meta = {"profile": prof[0], "pidx": pidx, "order": order, "added": [label_[x] for x, _ in order],
+                        "connected": list(dict.fromkeys(u["proto"] for x, ok in order for u in units if u["id"] == x and ok)),
+                        "after": [list(x) for x in done], "history": [list(x) for x in h[:len(done)]]}
+                out += await survey(t, atv, log, meta, None, None, None, variants=False, light=True)
     finally:
         await cleanup()
     return out
@@ -576,10 +660,19 @@ def judge(rec):
     feature stands for reaches an implementation, under every takeover holder; NotSupportedError raised by
     the facade / relayer is the violation.  Returns [(key, what, call)]."""
     bad = []
+    conn = rec.get("connected")
+    if conn is not None and any(p not in conn for p in rec.get("asked", [])):
+        bad.append(("C13:connect:not-connected-protocol-reports:%s" % rec["feature"],
+                    "device profile %s, SetupData added %s: the feature query for %s is answered (%s) by %s, whose connect() returned False"
+                    % (rec["profile"], rec["added"], rec["feature"], rec.get("get_feature"), rec["asked"]), None))
     for c in rec["calls"]:
-        where = "device profile %s, SetupData added %s, takeover %s: features.%s reports %s as %s; arguments %s" % (
-            rec["profile"], rec["added"], c["holder"], rec.get("reported_via", "get_feature"), rec["feature"], rec["state"],
-            c.get("arguments") or "default")
+        where = "device profile %s, SetupData added %s%s, takeover %s: features.%s reports %s as %s; arguments %s" % (
+            rec["profile"], rec["added"], (", after calling %s" % rec["after"]) if rec.get("after") else "", c["holder"],
+            rec.get("reported_via", "get_feature"), rec["feature"], rec["state"], c.get("arguments") or "default")
+        if conn is not None and any(p not in conn for p in c["called"]):
+            bad.append(("C13:connect:not-connected-protocol-executes:%s" % rec["feature"],
+                        "%s; %s.%s is executed by %s, whose connect() returned False" % (where, c["iface"], c["member"], c["called"]), c))
+            continue
         if c["exc"] == "NotSupportedError" and c["called"]:
             bad.append(("C13:invoke:not-supported:%s" % rec["feature"],
                         "%s; %s.%s was relayed to %s, whose implementation was entered, but the call failed with NotSupportedError (takeovers requested: %s)"
@@ -669,7 +762,9 @@ def run(ctx):
                 "FeatureName: answer of features.get_feature - and of all_features() with both values of include_unsupported and "
                 "in_state(state | [state], name) for every state, which must all agree with it -, and every member of every reported feature called through the "
                 "device object; once with the real Features objects, once with Features stubs reporting everything "
-                "Available (worst case of the dynamic states); (a2) per profile, sets of configured services assembled the way "
+                "Available (worst case of the dynamic states); SetupData whose connect() returns False must contribute nothing; "
+                "(a3) multi-step use of one device object: after every public member call (each member once, plus random "
+                "histories of length 2-3) all features are queried and all reported members invoked again; (a2) per profile, sets of configured services assembled the way "
                 "pyatv.connect does (one configuration, core.takeover = partial(atv.takeover, protocol)), Stream members running "
                 "their real code: stream_file / play_url invoked when reported; takeover scenarios for the invocations: none, RAOP holding "
                 "Audio/Metadata/PushUpdater/RemoteControl (stream_file), AirPlay holding RemoteControl (play_url), a protocol "
@@ -703,26 +798,28 @@ def run(ctx):
     ctx.extra["profiles"] = [pr["name"] for pr in t["profiles"]]
     ctx.extra["profiles_driven_completely"] = [t["profiles"][k]["name"] for k in sorted(reps)] if not ctx.thorough else "all"
     for pidx, pr in enumerate(t["profiles"]):
-        full = ctx.thorough or pidx in reps
+        full = "all" if ctx.thorough else (pidx in reps)
         orders = profile_orders(pr["units"], ctx.rng, full)
         for mode in ("real", "worst"):
             if mode == "worst" and not full:
                 continue
-            recs = vloop.run(drive_real, t, mode, pidx, orders, None,
+            orders_m = orders if (mode == "real" or ctx.thorough) else [o for o in orders if all(ok for _, ok in o)]
+            recs = vloop.run(drive_real, t, mode, pidx, orders_m, None,
                              lambda protos, _m=mode: holder_scenarios(ctx.rng, ctx.thorough, discovered, protos, _m))
             for rec in recs:
                 ctx.traces += 1
                 reported = rec["state"] != "Unsupported"
                 hk = json.dumps(rec["holder"])
-                ctx.case((mode, rec["profile"], tuple(rec["order"]), hk, rec["feature"], rec["state"], tuple(rec["asked"])), nontrivial=reported,
+                ctx.case((mode, rec["profile"], json.dumps(rec["order"]), hk, rec["feature"], rec["state"], tuple(rec["asked"])), nontrivial=reported,
                          sample={"mode": mode, "profile": rec["profile"], "added": rec["added"], "holder": rec["holder"], "feature": rec["feature"],
                                  "state": rec["state"], "asked": rec["asked"], "calls": rec["calls"]} if reported else None)
                 ctx.count("%s:%s" % (mode, rec["state"]))
                 ctx.count("profile:" + rec["profile"])
                 for key, what, call in judge(rec):
+                    call = call or {}
                     ctx.violation(key, what, {"kind": "real", "mode": mode, "profile": rec["profile"], "added": rec["added"],
-                                              "holder": call["holder"], "arguments": call.get("arguments") or {},
-                                              "feature": rec["feature"], "state": rec["state"], "call": call})
+                                              "order": rec["order"], "holder": call.get("holder"), "arguments": call.get("arguments") or {},
+                                              "feature": rec["feature"], "state": rec["state"], "call": call or None})
                 obs = fres_of(rec["asked"], rec.get("get_feature", rec["state"]))
                 if rec.get("entry_points_disagree"):
                     ctx.count("features-entry-points-disagree")
@@ -733,7 +830,9 @@ def run(ctx):
                 if obs is None:
                     ctx.tie_broken("correspondence:features-unexpected-observation", json.dumps(rec))
                     continue
-                ids = "[" + "; ".join(str(i) for i in rec["order"]) + "]"
+                ids = "[" + "; ".join("(%d, %s)" % (i, common.cbool(ok)) for i, ok in rec["order"]) + "]"
+                if any(not ok for _, ok in rec["order"]):
+                    ctx.count("orders-with-setupdata-not-connecting")
                 fcases.append("(%d, %s, %d, %s)" % (pidx, ids, rec["index"], obs))
                 if mode == "worst" and rec["asked"] and rec.get("get_feature", rec["state"]) != "Available":
                     ctx.tie_broken("correspondence:worst-case-stub", json.dumps(rec))
@@ -751,13 +850,16 @@ def run(ctx):
     ctx.exhaustive = bool(ctx.thorough)
     ctx.note("real objects driven %.1fs" % (time.time() - ctx.t0))
     funiq = list(dict.fromkeys(fcases))
-    c01.run_cases_in_coq(ctx, "features", HEADER, "nat * list nat * feature * fres", "check_real_feature",
+    ctx.count("feature-cases-distinct", len(funiq))
+    if not ctx.thorough and len(funiq) > 10000:
+        funiq = ctx.rng.sample(funiq, 10000)      # the oracle judged every answer; the model comparison is sampled
+    c01.run_cases_in_coq(ctx, "features", HEADER, "nat * list (nat * bool) * feature * fres", "check_real_feature",
                          funiq, lambda b: {"case": funiq[b], "profiles": ctx.extra["profiles"]}, per=2000)
     uniq = list(dict.fromkeys(icases))
     ctx.count("invoke-cases-distinct", len(uniq))
     if not ctx.thorough and len(uniq) > 8000:
         uniq = ctx.rng.sample(uniq, 8000)      # the oracle judged every call; the model comparison is sampled
-    c01.run_cases_in_coq(ctx, "invoke", HEADER, "nat * list nat * list proto * iface * string * bool * callres", "check_real_invoke",
+    c01.run_cases_in_coq(ctx, "invoke", HEADER, "nat * list (nat * bool) * list proto * iface * string * bool * callres", "check_real_invoke",
                          uniq, lambda b: {"case": uniq[b], "profiles": ctx.extra["profiles"]}, per=2000)
     ctx.note("real objects compared %.1fs" % (time.time() - ctx.t0))
     # ---------------------------------------------------------------- (a2) takeover bound as pyatv.connect binds it, real Stream code
@@ -791,6 +893,28 @@ def run(ctx):
                 ctx.violation(key, what, {"kind": "bound", "profile": rec["profile"], "services": rec["services"], "added": rec["added"],
                                           "feature": rec["feature"], "state": rec["state"], "call": call})
     ctx.extra["profiles_where_airplay_embeds_raop"] = embeds
+    # ---------------------------------------------------------------- (a3) multi-step use of one device object
+    hists = usage_histories(ctx.rng, ctx.thorough)
+    for pidx, pr in enumerate(t["profiles"]):
+        if not (ctx.thorough or pidx in reps):
+            continue
+        by_src = {p: [u["id"] for u in pr["units"] if u["src"] == p] for p in PROTOS}
+        order = [i for p in PYATV_ORDER for i in by_src[p]]
+        try:
+            recs = vloop.run(drive_usage, t, pidx, order, hists)
+        except Exception:  # noqa
+            import traceback
+            ctx.tie_broken("driver:usage:" + pr["name"], traceback.format_exc())
+            continue
+        for rec in recs:
+            ctx.traces += 1
+            ctx.case(("usage", rec["profile"], json.dumps(rec["history"]), rec["feature"], rec["state"]),
+                     nontrivial=rec["state"] != "Unsupported")
+            ctx.count("usage:steps")
+            for key, what, call in judge(rec):
+                ctx.violation(key, what, {"kind": "usage", "profile": rec["profile"], "added": rec["added"], "order": rec["order"],
+                                          "history": rec["history"], "feature": rec["feature"], "state": rec["state"], "call": call})
+    ctx.note("usage histories driven %.1fs" % (time.time() - ctx.t0))
     ctx.note("bound takeover driven %.1fs" % (time.time() - ctx.t0))
     # ---------------------------------------------------------------- (b) arbitrary tables
     n = 1500 if not ctx.thorough else 20000
@@ -846,9 +970,19 @@ async def replay_one(r, t, verbose=True):
     if r.get("profile") not in names:
         return [("C13:replay:unknown-profile", str(r.get("profile")), None)]
     pidx = names.index(r["profile"])
+    if r.get("kind") == "usage":
+        recs = await drive_usage(t, pidx, r["order"], [[tuple(x) for x in r["history"]]])
+        out = []
+        for rec in recs:
+            if rec["history"] == [list(x) for x in r["history"]] and rec["feature"] == r["feature"]:
+                if verbose:
+                    print("profile=%s added=%s after=%s feature=%s state=%s calls=%s" % (
+                        rec["profile"], rec["added"], rec["after"], rec["feature"], rec["state"], rec["calls"]))
+                out += judge(rec)
+        return out
     lab = {"%s>%s" % (u["src"], u["proto"]): u["id"] for u in t["profiles"][pidx]["units"]}
-    order = [lab[x] for x in r["added"] if x in lab]
-    if len(order) != len(r["added"]):
+    order = r["order"] if r.get("order") else [lab[x] for x in r["added"] if x in lab]
+    if not r.get("order") and len(order) != len(r["added"]):
         if verbose:
             print("profile %s no longer yields %s" % (r["profile"], [x for x in r["added"] if x not in lab]))
     sc = [tuple(r["holder"])] if r.get("holder") else [None]
